@@ -38,7 +38,9 @@ def explore(ctx, extended=False, focus=None):
                "guard values, bitlength, error class)")
     n = ctx.n(500, 12000) * (3 if extended else 1)
     cases = corpus_cases("C07") + [progs.guarded_case(ctx.rnd, f"c07_{i}") for i in range(n)]
-    cases = [c for c in cases if c.cfg["ign"] == 0]
+    for i, c in enumerate(cases):
+        if i % 4 == 3 and c.meta.get("shape") != "corpus":
+            c.cfg["ign"] = 1        # globally enabled ignore-errors mode: a true guard must stay transparent there too
     recs = execute_all(cases)
     twins = execute_all([twin_unguarded(c) for c in cases], with_model=False)
     for r, u in zip(recs, twins):
@@ -49,7 +51,7 @@ def explore(ctx, extended=False, focus=None):
         ex.count(f"guards:{''.join(map(str, gv))}")
         ex.distinct.add((m.get("op"), m.get("kinds"), gv, r.case.cfg["bl"], r.errcls))
         # (1) inert
-        if not r.ok and r.errcls in VALUE_ERRORS and r.errpos < len(r.case.instrs):
+        if r.case.cfg["ign"] == 0 and not r.ok and r.errcls in VALUE_ERRORS and r.errpos < len(r.case.instrs):
             vals = guard_values(r, r.errpos)
             if vals and any(v == 0 for v in vals):
                 sig = instr_sig(r.case, r.regs, r.errpos); sig["dev"] = "raises-under-false-guard"; sig["error"] = r.errcls
@@ -63,7 +65,7 @@ def explore(ctx, extended=False, focus=None):
                 ex.violations.append(Violation(sig, f"{r.case.instrs[r.errpos]} raises {r.errcls} although an enclosing guard is false "
                                                     f"(guard values {vals})", {"case": r.case.line()}))
         # (2) satisfied
-        if r.ok and r.unsat:
+        if r.case.cfg["ign"] == 0 and r.ok and r.unsat:
             k = r.unsat[0]
             ex.violations.append(Violation({"dev": "unsatisfied", "guards": "".join(map(str, gv))},
                                            f"constraint #{k} ({r.cons[k][:100]}) is not satisfied by the recorded witness (guard values {gv})",
